@@ -129,7 +129,15 @@ func (x *XNumber) MarshalJSON() ([]byte, error) {
 
 // UnmarshalJSON is called when a struct containing this type is unmarshaled
 func (x *XNumber) UnmarshalJSON(data []byte) error {
-	return jsonx.Unmarshal(data, &x.native)
+	if err := jsonx.Unmarshal(data, &x.native); err != nil {
+		return err
+	}
+
+	// as for numbers inside JSON values: comparing or rendering costs time and memory proportional to 10^|exponent|
+	if x.native.Exponent() < -maxJSONNumberExponent || x.native.Exponent() > maxJSONNumberExponent {
+		return errors.New("number value out of range")
+	}
+	return nil
 }
 
 // XNumberZero is the zero number value
